@@ -62,7 +62,7 @@ view == <<sc, pst, bto, home, cl, nc, ph, q, plc, opn, rem, sh, rounds, ns, bad>
 
 ----------------------------------------------------------------------------
 (* scenario space (record shapes of the driver's scenario JSON) *)
-Off(z, cov) == [zone |-> z, ct |-> "od", price |-> 100, available |-> TRUE, rid |-> "", rcap |-> 0, cpuOv |-> cov, memOv |-> 0]
+Off(z, cov) == [zone |-> z, ct |-> "od", price |-> 100, available |-> TRUE, rid |-> "", rcap |-> 0, cpuOv |-> cov, memOv |-> 0, podsOv |-> 0, ohCpu |-> 0, ohMem |-> 0]
 Ty(n, cpu, mem, offs) == [name |-> n, cpu |-> cpu, mem |-> mem, pods |-> 110, labels |-> <<>>, ovCpu |-> 0, ovMem |-> 0, offerings |-> offs]
 Catalog(i) ==
     CASE i = 1 -> <<Ty("A", 4000, 4096, <<Off("a", 0)>>), Ty("B", 2000, 8192, <<Off("a", 0)>>)>>                 \* incomparable
